@@ -130,8 +130,13 @@ def gen(rng, dim=None, depth=None, p_twice=0.35, **opts):
     if dim == 1:
         cur = g.add(k='in', shape=[cin, opts.get('T') or rng.randint(8, 16)])
     else:
-        hw = opts.get('HW') or rng.randint(5, 8)
-        cur = g.add(k='in', shape=[cin, hw, hw])
+        # rectangular inputs: several aspect ratios, most of them with ceil(H/2)*ceil(W/8) != ceil(W/2)*ceil(H/8)
+        # (a cost model that confuses the two spatial axes must show), some square ones
+        if opts.get('HW'):
+            H = W = opts['HW']
+        else:
+            H, W = rng.choice([(5, 5), (6, 6), (7, 7), (6, 8), (8, 5), (5, 8), (10, 6), (6, 10), (16, 4), (4, 16), (9, 5), (12, 7), (20, 12), (12, 5)])
+        cur = g.add(k='in', shape=[cin, H, W])
     g.prod.append('stem')
     cur = g.act(g.bn(g.conv(cur)))
     nb = depth if depth is not None else rng.randint(1, 4)
